@@ -231,6 +231,14 @@ class Machine:
             if legal:
                 raise Violation("extend-rejected", f"extend with {other.coords} after {last} raised AssertionError")
             return self._rejected(before, f"extend({other.coords}) after {last}", e)
+        if legal and o["mode"] // 2 % 2 and len(other.coords) >= 2:
+            # the argument stays a fiber of its own ("not copied" is said of the elements, which are shared):
+            # re-sorting IT afterwards is a mutation of `other`, the receiver keeps its coordinate / payload pairing
+            # (the invariant that runs after this step looks at the receiver's tree)
+            S = self.shape[lvl] + max(0, other.coords[-1] + 1 - self.shape[lvl])
+            other.updateCoords(lambda i, c, p: S - 1 - c, new_shape=S)
+            observe.wellformed(other, where="the argument of extend() after its own updateCoords")
+            return ("ok", {"illegal-accepted": False, "argument-resorted": True})
         return ("ok", {"illegal-accepted": not legal})
 
     def op_setitem(self, o):
